@@ -338,13 +338,10 @@ func (w *World) Payload(class int) []byte {
 }
 
 func copyDRR(d *appencryption.DataRowRecord) appencryption.DataRowRecord {
-	out := appencryption.DataRowRecord{Data: append([]byte(nil), d.Data...)}
-	if d.Data == nil {
-		out.Data = nil
-	}
+	out := appencryption.DataRowRecord{Data: cloneBytes(d.Data)}
 	if d.Key != nil {
 		k := *d.Key
-		k.EncryptedKey = append([]byte(nil), d.Key.EncryptedKey...)
+		k.EncryptedKey = cloneBytes(d.Key.EncryptedKey)
 		if d.Key.ParentKeyMeta != nil {
 			pm := *d.Key.ParentKeyMeta
 			k.ParentKeyMeta = &pm
@@ -479,5 +476,60 @@ func (w *World) SKMismatchFallbacks() map[int]map[int64]bool {
 			failed[k] = false
 		}
 	}
+	return out
+}
+
+// Corrupt overwrites (doc != nil) or removes (doc == nil) a metastore row: storage corruption.
+func (st *SimStore) Corrupt(id string, created int64, doc []byte, kind string) {
+	if st.Rows[id] == nil {
+		return
+	}
+	if doc == nil {
+		delete(st.Rows[id], created)
+		delete(st.AtInsert[id], created)
+	} else {
+		st.Rows[id][created] = append([]byte(nil), doc...)
+		st.AtInsert[id][created] = append([]byte(nil), doc...)
+	}
+	st.Log = append(st.Log, StoreEvent{By: "corrupt", Kind: kind, ID: id, Created: created, T: st.w.S.Elapsed(), Op: -1})
+	st.w.Faults.Fired["corrupt:"+kind]++
+	st.w.S.Logf("corrupt %s %s@%d", kind, id, created)
+}
+
+type missingLoader struct{ nilnil bool }
+
+func (m missingLoader) Load(_ context.Context, _ interface{}) (*appencryption.DataRowRecord, error) {
+	if m.nilnil {
+		return nil, nil
+	}
+	return nil, fmt.Errorf("no such record")
+}
+
+// LoadMissing calls Session.Load with a loader that does not have the record (first reporting an
+// error, then reporting "not found" as (nil, nil)).
+func (w *World) LoadMissing(se *Sess) *OpRec {
+	var last *OpRec
+	for _, nn := range []bool{false, true} {
+		op := w.begin("load-missing", se.P, se.Part)
+		w.guard(op, func() { _, op.Err = se.S.Load(context.Background(), "k", missingLoader{nilnil: nn}) })
+		w.end(op)
+		if op.Panic != "" {
+			w.Violate("panic", "panic@"+op.Panic, "Session.Load of a missing record (loader returned nil,nil=%v) panicked: %s", nn, op.Panic)
+			return op
+		}
+		if op.Err == nil {
+			return op
+		}
+		last = op
+	}
+	return last
+}
+
+func cloneBytes(b []byte) []byte {
+	if b == nil {
+		return nil
+	}
+	out := make([]byte, len(b))
+	copy(out, b)
 	return out
 }
